@@ -158,8 +158,13 @@ Definition guards (l : lock) (r : access) : bool :=
 Definition rows_of (x : loc) (t : table) : table := filter (fun r => String.eqb (a_loc r) x) t.
 
 (* every location has one lock that guards all its rows *)
-Definition protectedb (t : table) : bool :=
-  forallb (fun r => existsb (fun p => forallb (guards (fst p)) (rows_of (a_loc r) t)) (a_held r)) t.
+Definition row_okb (t : table) (r : access) : bool :=
+  existsb (fun p => forallb (guards (fst p)) (rows_of (a_loc r) t)) (a_held r).
+
+Definition protectedb (t : table) : bool := forallb (row_okb t) t.
+
+(* the rows of the locations that have no common lock (for reports and for the model runner) *)
+Definition flagged_rows (t : table) : table := filter (fun r => negb (row_okb t r)) t.
 
 Definition protected (t : table) : Prop :=
   forall r, In r t -> exists l, forall r', In r' t -> a_loc r' = a_loc r -> guards l r' = true.
